@@ -280,12 +280,23 @@ type driver struct {
 	hung    bool
 }
 
+// toIdx builds the caller's index slice; like any append-built slice it has spare capacity.
 func toIdx(v any) []eth2p0.ValidatorIndex {
-	var out []eth2p0.ValidatorIndex
-	for _, x := range v.([]any) {
+	l := v.([]any)
+	out := make([]eth2p0.ValidatorIndex, 0, len(l)+3)
+	for _, x := range l {
 		out = append(out, eth2p0.ValidatorIndex(drv.Num(x)))
 	}
 	return out
+}
+
+// reuseArg is what a caller is free to do with ITS index slice once the call has returned: overwrite the whole
+// backing array (e.g. to build the next request in place). The cache must not have kept a reference to it.
+func reuseArg(idxs []eth2p0.ValidatorIndex) {
+	full := idxs[:cap(idxs)]
+	for i := range full {
+		full[i] = eth2p0.ValidatorIndex(9000 + i)
+	}
 }
 
 // startCall logs the Call event and returns the function that performs the call (and logs Ret).
@@ -350,6 +361,7 @@ func (d *driver) startCall(st drv.Step) (*request, func()) {
 			ev["err"] = errs
 		}
 		d.tr.Emit(ev)
+		reuseArg(idxs) // after the return (and after the answer was decoded and logged), before the next stimulus
 		rq.done <- struct{}{}
 	}
 }
